@@ -11,6 +11,18 @@ sys.path.insert(0, HERE)
 
 
 def main():
+    # a private temporary directory for this process: the templates look for left-over
+    # `file_builder_*` backup directories, and other processes (other checks, other users of the
+    # machine) create and remove such directories in the shared /tmp at the same time
+    import atexit
+    import shutil
+    import tempfile
+    base = os.path.join(os.path.dirname(HERE), 'replays', 'tmp')
+    os.makedirs(base, exist_ok=True)
+    private = tempfile.mkdtemp(prefix='tmp%d_' % os.getpid(), dir=base)
+    tempfile.tempdir = private
+    os.environ['TMPDIR'] = private
+    atexit.register(shutil.rmtree, private, True)
     req = json.loads(sys.stdin.read() or '{}')
     func = req.get('func', '')
     try:
